@@ -89,7 +89,7 @@ def _earlier_write_with_custom_formatters(src):
         return
 
     def custom(grp, header, md, compression):
-        name = header.replace("/", "@@SLASH@@")
+        name = "metadata/" + header.replace("/", "@@SLASH@@")
         grp.create_dataset(name, shape=(len(md),),
                            dtype=h5spec.h5py.string_dtype(),
                            data=[b"written by a custom formatter"] * len(md))
